@@ -2572,10 +2572,26 @@ impl PublicKey {
                             debug_assert!(zUi.equals(-zVj) != 0);
                             s0 + ni - nj
                         };
-                        // sig2[] already contains r, we just have to encode
-                        // the complete s in it.
-                        sig2[32..64].copy_from_slice(&bswap32(&s.encode()));
-                        return Some(sig2);
+                        // The rebuilt s is obtained modulo n: it is a
+                        // valid completion only if it is non-zero and
+                        // extends the received value s0 (little-endian,
+                        // last rm bits ignored).
+                        let se = s.encode();
+                        let nb = ((519 - rm) >> 3) - 32;
+                        let mut d = 0u8;
+                        for t in 0..nb {
+                            let mut b = se[t];
+                            if t == nb - 1 && (rm & 7) != 0 {
+                                b &= 0xFFu8 >> (rm & 7);
+                            }
+                            d |= b ^ sig2[32 + t];
+                        }
+                        if d == 0 && s.iszero() == 0 {
+                            // sig2[] already contains r, we just have to
+                            // encode the complete s in it.
+                            sig2[32..64].copy_from_slice(&bswap32(&se));
+                            return Some(sig2);
+                        }
                     }
 
                     if i1 == 0 {
